@@ -935,7 +935,7 @@ def vc_custom_basis(H):
     """C01 / C14 / C15: for ANY user-supplied basis (any number of names, any lengths, any generator characters) that is well
     formed -- every generator character of a name is one of the one-character vector names, vector names pairwise distinct,
     the characters within a name pairwise distinct -- the branch establishes the naming facts the sign chain relies on:
-      P1  start_index == int(min(vector names))
+      P1  start_index is the digit of a vector name and at most the digit of every vector name
       P2  canon2bin[basis[i]] == OR of 2**(vector number of c) over the generator characters c of basis[i]; the j-th vector
           (in basis order) has key 2**j; the keys are below 2**(number of vectors)
       P3  bin2canon maps canon2bin[name] back to name and is filled in ascending key order.
@@ -982,19 +982,25 @@ def vc_custom_basis(H):
                 super().__init__(None, M.nv, get, 'list')
         st = {}
 
-        class MinModel:
+        class ExtremumModel:
+            """min / max of the list of vector names: builtin contract = one of the elements (witness) that bounds every element
+            (instantiated at the generic vector j used by the P1 obligation)"""
+
+            def __init__(self, lower):
+                self.lower = lower
+
             def kvc_call(self, interp, *a, **k):
                 if len(a) == 1 and not k and a[0] is st.get('vecs'):
-                    jm = z3.Int('j_min')
+                    jm = z3.Int(ctx.fresh('j_extremum'))
                     M.vec_facts(jm)
-                    st['min'] = SChar(M.vc(jm))
-                    st['jmin'] = jm
-                    return st['min']
-                raise OutOfSubset('min() of something other than the list of vector names')
+                    c = M.vc(jm)
+                    ctx.assume(z3.ULE(c, M.vc(j)) if self.lower else z3.UGE(c, M.vc(j)))
+                    return SChar(c)
+                raise OutOfSubset('min() / max() of something other than the list of vector names')
 
         class IntModel:
             def kvc_call(self, interp, x=0, base=10):
-                if x is st.get('min') and base == 10:
+                if isinstance(x, SChar) and base == 10:
                     # int() of a letter raises ValueError (input rejected): only decimal digits continue
                     ctx.assume(z3.ULE(x.c, 9))
                     return SKey(z3.ZeroExt(WB - CB, x.c), 0, 9)
@@ -1067,7 +1073,7 @@ def vc_custom_basis(H):
 
         interp = Interp(ctx, source_name=REL)
         env = Env(dict(BUILTIN_ENV))
-        env.vars.update({'self': me, 'min': MinModel(), 'int': IntModel(), 'reduce': ReduceModel(), 'sorted': SortedModel()})
+        env.vars.update({'self': me, 'min': ExtremumModel(True), 'max': ExtremumModel(False), 'int': IntModel(), 'reduce': ReduceModel(), 'sorted': SortedModel()})
         i = z3.Int('i')
         M.name_facts(i)
         j = z3.Int('j')
@@ -1086,8 +1092,8 @@ def vc_custom_basis(H):
 
         def chk_start():
             v = me.attrs.get('start_index')
-            ok = isinstance(v, SKey) and 'min' in st
-            ctx.oblige('P1: start_index == int(min(vector names))', (v.t == z3.ZeroExt(WB - CB, st['min'].c)) if ok else False)
+            ctx.oblige('P1: start_index is at most the digit of every vector name (it is the smallest one)',
+                       z3.ULE(v.t, z3.ZeroExt(WB - CB, M.vc(j))) if isinstance(v, SKey) else False)
 
         def chk_vec2bin():
             v = env.lookup('vec2bin')
